@@ -2,6 +2,7 @@
 import json
 import re
 import traceback
+from pathlib import Path
 
 import core
 from impl import pp, rst
@@ -26,7 +27,7 @@ SPECIAL = [
     ("chapter", {"description": ["d"], "image": ["/i.png"], "icon": ["/i.png"]}, ["", "Chapter"], True),
     ("guide", {}, ["", "/page1", "/nope"], True),
     ("ia", {}, [""], True),
-    ("entry", {"id": ["e1", ""], "url": ["https://x.y", "/page1", "/nope", "/page1.txt", "page1", "page2", "/guides/g1", "g1", "guides/g1", "/page2/", "/index", ""],
+    ("entry", {"id": ["e1", ""], "url": ["https://x.y", "/page1", "/nope", "/page1.txt", "page1", "page2", "/guides/g1", "g1", "guides/g1", "/page2/", "/index", "", "http://[foo", "http://[::1]/x", "//host/p", "mailto:x@y", "/page1#frag", "?q"],
                "project-name": ["proj"], "primary": ["true", ""]}, ["", "Title"], True),
     ("card-group", {"columns": ["3", "x"], "ia-entry-id": ["e1", "zz"], "layout": ["default"], "style": ["default"], "type": ["small"]}, [""], True),
     ("card", {"headline": ["H"], "url": ["https://x.y"], "cta": ["c"], "icon": ["general_content_learn"], "tag": ["t"]}, [""], True),
@@ -69,8 +70,9 @@ def gen_block(rng, depth, indent=""):
     if r < 0.18 or depth >= 4:
         return [indent + " ".join(rng.choice(INLINE) for _ in range(rng.randint(1, 3))), ""]
     if r < 0.25:
-        t = rng.choice(["Title", "Other", "A b", "x"])
-        return [indent + t, indent + rng.choice("=-~^") * (len(t) + 2), ""]
+        t = rng.choice(["Title", "Other", "A b", "x", "See :ref:`a` here", ":ref:`b`", "Uses |sub| and :ref:`t <a>`", ":doc:`/page1` guide", "``lit`` [#f]_"])
+        pre = [indent + f".. _{rng.choice(['a', 'b'])}:", ""] if rng.random() < 0.35 else []
+        return pre + [indent + t, indent + rng.choice("=-~^") * (len(t) + 2), ""]
     if r < 0.30:
         return [indent + f".. _{rng.choice(['a', 'b', 'a'])}:", ""]
     if r < 0.34:
@@ -179,7 +181,8 @@ def gen_chain(rng, indent=""):
 
 
 def gen_ia(rng):
-    urls = ["/page1", "/page2", "/page1.txt", "page1", "page2", "/guides/g1", "g1", "guides/g1", "/guides/g1.txt", "/nope", "https://x.y", "/index", "/page2/", "../page1"]
+    urls = ["/page1", "/page2", "/page1.txt", "page1", "page2", "/guides/g1", "g1", "guides/g1", "/guides/g1.txt", "/nope", "https://x.y", "/index", "/page2/", "../page1",
+            "http://[foo", "//host/p", "/page1#frag"]
     lines = [".. ia::", ""]
     for _ in range(rng.randint(1, 4)):
         lines += ["   .. entry::" + rng.choice(["", " Title"]), "      :url: " + rng.choice(urls)]
@@ -311,10 +314,27 @@ class C02(core.PropertyCheck):
                 cfg["toc_landing_pages"] = ["/page1"]
             if rng.random() < 0.2:
                 cfg["multi_page_tutorials"] = ["/page1"]
+            if rng.random() < 0.2:
+                cfg["banners"] = [{"targets": rng.choice([["*"], [""], ["*.txt"], ["guides/*", ""], ["index.txt"], ["nothing/*"]]),
+                                   "variant": rng.choice(["info", "warning"]), "value": rng.choice(["Banner *text*", "See :ref:`a`", "|sub|"])}]
+            if rng.random() < 0.2:
+                cfg["manpages"] = {"mongo": {"file": rng.choice(["index.txt", "page1.txt", "nope.txt"]), "title": "T", "section": 1}}
+                if rng.random() < 0.3:
+                    cfg["bundle"] = {"manpages": rng.choice(["manpages.tar.gz", "manpages.tar", "manpages.zip", "manpages"])}
             if rng.random() < 0.3:
                 cfg["substitutions"] = {"sub": rng.choice(SUBST_BODIES)}
                 if rng.random() < 0.5:
                     cfg["substitutions"]["sub2"] = rng.choice(SUBST_BODIES)
+            if rng.random() < 0.12:
+                # the shape of a page generated from YAML: stored under includes/steps/run.rst, its Root names the YAML file;
+                # its content may include itself / be included from the pages
+                body = gen_page(rng)
+                if rng.random() < 0.6:
+                    body += "\n.. include:: /includes/steps/run.rst\n"
+                files["includes/steps/run.rst"] = body
+                cfg["_generated"] = {"includes/steps/run.rst": "includes/steps-run.yaml"}
+                for f in [f for f in files if f.endswith(".txt")][:1]:
+                    files[f] += "\n.. include:: /includes/steps/run.rst\n"
             yield {"kind": "project", "files": files, "cfg": cfg}
 
     # ---- event walk cases: [kind, children] with kinds root/dir/dli/plain
@@ -408,7 +428,13 @@ class C02(core.PropertyCheck):
             except Exception as e:
                 return {"exc": type(e).__name__, "where": traceback.format_exc()[-600:]}
             return {"exc": None, "log": log, "stack_after": len(ep.fileid_stack._stack)}
-        cfg = ProjectConfig(rst.ROOT, "verif", **{k: v for k, v in case["cfg"].items() if k != "substitutions"})
+        from snooty.types import BannerConfig, BundleConfig, ManPageConfig, ParsedBannerConfig
+        plain = {k: v for k, v in case["cfg"].items() if k not in ("substitutions", "banners", "manpages", "bundle", "_generated")}
+        cfg = ProjectConfig(rst.ROOT, "verif", **plain)
+        if "manpages" in case["cfg"]:
+            cfg.manpages = {k: ManPageConfig(**v) for k, v in case["cfg"]["manpages"].items()}
+        if "bundle" in case["cfg"]:
+            cfg.bundle = BundleConfig(**case["cfg"]["bundle"])
         pages = []
         try:
             if "substitutions" in case["cfg"]:
@@ -418,9 +444,27 @@ class C02(core.PropertyCheck):
                     page, _ = rst.parse(v, "sub.txt", cfg)
                     kids = page.ast.children
                     cfg.substitution_nodes[k] = list(kids[0].children) if kids and isinstance(kids[0], n.Paragraph) else []
+            for b in case["cfg"].get("banners", []):
+                # what _Project.__init__ does with [[banners]] of snooty.toml
+                cfg.banners.append(BannerConfig(**b))
+                bpage, _ = rst.parse(b["value"], "banner.txt", cfg)
+                node = n.Directive((-1,), [], "mongodb", "banner", [], {"variant": b["variant"]})
+                node.children = bpage.ast.children
+                if node.children:
+                    cfg.banner_nodes.append(ParsedBannerConfig(b["targets"], node))
+            gen = case["cfg"].get("_generated", {})
             for f, text in case["files"].items():
                 page, diags = rst.parse(text, f, cfg)
                 page.finish(diags)
+                if f in gen:
+                    # stored under its output path (the key the include pass looks up), the tree names the YAML source
+                    from snooty.page import Page
+                    src = n.FileId(gen[f])
+                    page.ast.fileid = src
+                    gp = Page.create(src, Path(f).name, text, page.ast)
+                    gp.category = Path(f).parent.name
+                    assert gp.fake_full_fileid().as_posix() == f, gp.fake_full_fileid()
+                    page = gp
                 pages.append(page)
         except Exception as e:
             return {"exc": None, "parse_exc": type(e).__name__}  # parse totality is C01's business
